@@ -17,7 +17,7 @@ AREA = "copyloop"
 DRIVER_ARGS = ("-test.run", "^TestVerifCopyloopDriver$", "-test.timeout=0")
 BUF = 32768
 
-KEYS = ("relay-inserted-or-reordered-bytes", "relay-conn-closed-twice", "relay-conn-left-open", "relay-wrote-after-close",
+KEYS = ("relay-inserted-or-reordered-bytes", "relay-dropped-bytes", "relay-conn-closed-twice", "relay-conn-left-open", "relay-wrote-after-close",
         "relay-returned-without-cause", "relay-stuck", "relay-crash")
 
 
@@ -88,14 +88,19 @@ def evaluate(line, impl):
                     "direction %s -> %s: the relay wrote %s (%d bytes) to %s, which is not a prefix of the %d bytes it had read from %s (%s)"
                     % (name[s], name[1 - s], w[1 - s][:80], n, name[1 - s], r[s], name[s], form(data[s][:r[s]])[:80]))
     for s in (0, 1):
+        # a copier parked at a Read holds no chunk and has seen no failed Write: everything it read has been written
+        if len(p) == 3 and p[s] == "r" and form_len(w[1 - s]) != r[s]:
+            return ("relay-dropped-bytes", "direction %s -> %s is waiting for more input, but only %d of the %d bytes it has read were written to %s"
+                    % (name[s], name[1 - s], form_len(w[1 - s]), r[s], name[1 - s]))
+    for s in (0, 1):
         if c[s] > 1:
             return ("relay-conn-closed-twice", "copyLoop called Close %d times on %s" % (c[s], name[s]))
+    if late[0] > 0 or late[1] > 0:
+        return ("relay-wrote-after-close", "after copyLoop returned, %d more bytes were written to c1 and %d to c2" % (late[0], late[1]))
     if ret:
         for s in (0, 1):
             if c[s] == 0:
                 return ("relay-conn-left-open", "copyLoop returned without closing %s" % name[s])
-    if late[0] > 0 or late[1] > 0:
-        return ("relay-wrote-after-close", "after copyLoop returned, %d more bytes were written to c1 and %d to c2" % (late[0], late[1]))
     if "s" not in sched and len(p) == 3 and p[2] != "w" and p[0] != "-" and p[1] != "-":
         return ("relay-returned-without-cause", "copyLoop left its select although both copiers are still running and shutdown was not closed (p=%s)" % p)
     return None
